@@ -16,7 +16,7 @@
 //
 //	C03.step <start dump> <ops ';'-joined, up to and including this one> <k>
 //	         <before dump> <outcome> <wf problems> <after dump>
-//	         <Nodes> <Tips> <Edges> <InternalEdges> <TipEdges> <newick> <extra>
+//	         <Nodes> <Tips> <Edges> <InternalEdges> <TipEdges> <newick> <extra> <raw graph>
 //
 // extra: for rotate / resolve the results of the rand.Intn calls the MODEL prescribes
 // (same seed replayed with the bounds computed from the tree before the operation);
@@ -54,6 +54,10 @@ func Run(c *core.Ctx) {
 	log.SetOutput(io.Discard)
 	if strings.HasPrefix(c.Arg, "child:") {
 		runChild(c)
+		return
+	}
+	if strings.HasPrefix(c.Arg, "shrink:") {
+		runShrink(c, strings.TrimPrefix(c.Arg, "shrink:"))
 		return
 	}
 	runParent(c)
@@ -169,10 +173,10 @@ loop:
 	if pending != "" {
 		f := strings.Split(pending, "\t") // k, start, ops, before
 		if len(f) == 4 {
-			c.Emit(stepOp, f[1], f[2], f[0], f[3], outcome, "", "", "", "", "", "", "", "", "")
+			c.Emit(stepOp, f[1], f[2], f[0], f[3], outcome, "", "", "", "", "", "", "", "", "", "")
 		}
 	} else {
-		c.Emit(stepOp, "", "", "0", "", outcome+"-harness", "", "", "", "", "", "", "", "", "")
+		c.Emit(stepOp, "", "", "0", "", outcome+"-harness", "", "", "", "", "", "", "", "", "", "")
 	}
 	if cur < done {
 		cur = done
@@ -211,7 +215,7 @@ func replayLine(c *core.Ctx, l string) {
 	}
 	start, err := core.ParseDump(f[1])
 	if err != nil {
-		c.Emit(stepOp, f[1], f[2], "0", "", "badrequest:start", "", "", "", "", "", "", "", "", "")
+		c.Emit(stepOp, f[1], f[2], "0", "", "badrequest:start", "", "", "", "", "", "", "", "", "", "")
 		return
 	}
 	ops := strings.Split(f[2], ";")
@@ -236,6 +240,11 @@ type history struct {
 	ops   []string
 	t     *tree.Tree
 	cur   *core.N // α of the current state
+	// a rearrangement that has been applied and not yet undone, kept alive across steps
+	pending      tree.Rearrangement
+	pendingPre   string // α dump of the tree just before its Apply
+	pendingClean bool   // only order/root/index edits since the Apply (the splits must come back)
+	pendingFresh bool   // nothing at all since the Apply
 }
 
 func newHistory(c *core.Ctx, start *core.N) *history {
@@ -280,16 +289,20 @@ func (h *history) step(op string) bool {
 	c.W.Flush()
 	var res *tree.Tree
 	var err error
-	panicked, msg := core.Safe(func() { res, err = applyOp(h.t, op) })
+	extraUndo := ""
+	if opKind(op) == "nniundo" && h.pending != nil {
+		extraUndo = "undo=" + b2s(h.pendingClean) + b2s(h.pendingFresh) + "=" + h.pendingPre
+	}
+	panicked, msg := core.Safe(func() { res, err = h.applyOp(h.t, op) })
 	if panicked {
-		c.Emit(stepOp, h.start, opsField, k, before, "panic:"+core.Escape(msg), "", "", "", "", "", "", "", "", "")
+		c.Emit(stepOp, h.start, opsField, k, before, "panic:"+core.Escape(msg), "", "", "", "", "", "", "", "", "", "")
 		return false
 	}
 	if err != nil {
 		if _, ok := err.(badRequest); ok {
-			c.Emit(stepOp, h.start, opsField, k, before, "badrequest:"+core.Escape(err.Error()), "", "", "", "", "", "", "", "", "")
+			c.Emit(stepOp, h.start, opsField, k, before, "badrequest:"+core.Escape(err.Error()), "", "", "", "", "", "", "", "", "", "")
 		} else {
-			c.Emit(stepOp, h.start, opsField, k, before, "err", "", "", "", "", "", "", "", "", core.Escape(err.Error()))
+			c.Emit(stepOp, h.start, opsField, k, before, "err", "", "", "", "", "", "", "", "", core.Escape(err.Error()), "")
 		}
 		return false
 	}
@@ -300,13 +313,16 @@ func (h *history) step(op string) bool {
 		if n != nil {
 			after = n.Dump()
 		}
-		c.Emit(stepOp, h.start, opsField, k, before, "ok", core.StrList(wf.Problems), after, "", "", "", "", "", "", "")
+		c.Emit(stepOp, h.start, opsField, k, before, "ok", core.StrList(wf.Problems), after, "", "", "", "", "", "", "", rawGraph(res))
 		return false
 	}
 	extra := drawsFor(op, h.cur)
+	if extraUndo != "" {
+		extra = extraUndo
+	}
 	h.cur = n
 	o := observe(res)
-	c.Emit(stepOp, h.start, opsField, k, before, "ok", "", n.Dump(), o.nodes, o.tips, o.edges, o.internal, o.tipEdges, core.Escape(o.newick), extra)
+	c.Emit(stepOp, h.start, opsField, k, before, "ok", "", n.Dump(), o.nodes, o.tips, o.edges, o.internal, o.tipEdges, core.Escape(o.newick), extra, rawGraph(res))
 	// Branch ids are user data that no edit reads; numbering the branches afresh (pre-order, as the
 	// Newick parser does) between two steps keeps them pairwise distinct, which the id-addressed
 	// contraction model of C07 needs for the exact tie of the next step.
